@@ -11,7 +11,7 @@ VERIF = os.path.dirname(os.path.dirname(os.path.abspath(__file__)))
 CHECKS = {
     "C01": ("property-based testing (Hypothesis), oracle = independent reference HMM (exhaustive walk enumeration "
             "cross-checked with an own Viterbi)",
-            "Generated maps (<=12 nodes, incl. linked parallel edges), traces (<=12 points) and emitting-only first-order "
+            "Generated maps (<=12 nodes, incl. linked parallel edges), traces (<=12 points; one case in 150 has 700-900 observations, decided by the reference Viterbi alone) and emitting-only first-order "
             "configurations of the three modelled matcher families are matched on the in-memory map (and on SQLite for integer labels); matched prefix length, "
             "best probability and admissibility/optimality of the returned walk are compared with an exhaustive enumeration "
             "of all admissible walks under an independently written model. Exploration.",
@@ -47,7 +47,8 @@ CHECKS = {
             "operation histories as data",
             "Every entry of the returned best path (log-probability, observation distance, length, travelled distances, matched "
             "position) is recomputed by an independently written model from the map, the trace and the configuration, after single "
-            "calls and after generated match/extend/widen/rematch histories, for all families incl. non-emitting runs. Exploration.",
+            "calls and after generated match/extend/widen/rematch histories, for all four families (simple, node-and-edge, distance, "
+            "NewsonKrumm) incl. long non-emitting runs and moves between linked parallel edges. Exploration.",
             "trusted: hmmref.py + geom2d.py; for non-emitting edge states any valid witness pair is accepted; 1e-8 relative",
             "DESIGN.md §2 C02"),
     "C03": ("[thorough: + atheris coverage-guided bridge] property-based testing (Hypothesis), oracle = validity predicate over (states, index, best path, lattice) + "
@@ -85,7 +86,7 @@ CHECKS = {
             "trusted: snapshot taken by our own iterator wrapper passed as tqdm=; open finding KF-C07-NE recognised by signature",
             "DESIGN.md §2 C07"),
     "C08": ("[thorough: + atheris coverage-guided bridge] property-based testing (Hypothesis), differential oracle (incremental vs one-shot)",
-            "A trace cut at 1-4 generated points is matched incrementally with expand=True on one matcher and in one call on a "
+            "A trace cut at 1-5 generated points (repeats allowed: continuation calls that bring no new observation) is matched incrementally with expand=True on one matcher (possibly used for another trace before) and in one call on a "
             "fresh matcher: index, best path (ties excepted) and probability must agree. Exploration.",
             "trusted: nothing beyond public results; tie = probabilities equal to 1e-12",
             "DESIGN.md §2 C08"),
@@ -108,19 +109,19 @@ CHECKS = {
             "(exact rational in the plane, unit-vector spherical for lat/lon)",
             "Generated contents on both backends, three coordinate magnitudes (unit, projected metres ~5e6, degrees) and queries "
             "drawn relative to the content (node at r-eps along an axis, node exactly at r, long edge through the disc, near an "
-            "edge, random, unbounded radius, content across the antimeridian), with max_elmt: returned set, distances, projections, relative positions, order and truncation are "
+            "edge, random, unbounded radius, content across the antimeridian; SQLite maps also loaded call by call from generated load plans, in-memory maps also queried while still growing, one case in 300 on a 1156-1600 node grid), with max_elmt: returned set, distances, projections, relative positions, order and truncation are "
             "compared with a full scan. Exploration.",
             "trusted: geom2d.py / geomsph.py; stated don't-care bands around the radius; open finding F1 recognised by signature only",
             "DESIGN.md §2 C11"),
     "C12": ("property-based testing (Hypothesis), differential oracle (InMemMap vs SqliteMap vs generating model)",
-            "The same integer-labelled graph is loaded into both backends; size, labels, coordinates, node and edge neighbours, "
+            "The same integer-labelled graph is loaded into both backends (SQLite in bulk or call by call from a generated load plan with per-call flags, repeated nodes/edges and re-index calls); size, labels, coordinates, node and edge neighbours, "
             "full edge listing, bounding box, box-restricted node listing (boxes with nodes exactly on the border) are compared "
             "with each other and with the model, and the same edge-based matcher is run on both (index and probability). Exploration.",
             "trusted: the generating adjacency model; hash-colliding edge ids (labels -1/-2) are an open finding, excluded by its "
             "precondition and counted",
             "DESIGN.md §2 C12"),
     "C18": ("model-based property testing of operation histories (Hypothesis, operation sequences as data), round-trip oracle",
-            "Generated histories of single/bulk inserts with and without deferred commit/index, re-indexing, commits and 1-4 "
+            "Generated histories of single/bulk inserts with and without deferred commit/index, repeated inserts of known nodes and edges, connect_parallelroads, re-indexing, commits and 1-4 "
             "close/reopen (or dump/load) cycles on SQLite files and InMemMap pickles; at every reopen the metric flag, the module "
             "of the distance functions, projection settings and every listing / neighbour / spatial answer must equal the answers "
             "before closing and the model. Exploration.",
